@@ -307,6 +307,53 @@ fn deep_seq(rng: &mut Rng) -> Vec<Op> {
     ops
 }
 
+/// More than 2^32 outputs attached to ONE bus over its lifetime (each dropped again at once) while
+/// two early outputs stay alive and lag: whatever identifies an output must not be reused while
+/// an older holder is alive. Afterwards the early outputs must still be owed exactly their frames.
+fn many_attaches(rep: &mut Report, attaches: u64) {
+    let case = format!("len=-1;ops=attaches:{}", attaches);
+    let r = vmon::catch(|| -> Result<(), String> {
+        let probe = Probe::new();
+        let bus = USource::infinite(gen_frame, probe.clone()).bus();
+        let (mut a, mut b) = (bus.send(), bus.send());
+        for _ in 0..5 {
+            a.next();
+        }
+        b.next();
+        // a is at 5, b at 1: backlog holds frames 1..5 for b
+        for k in 0..attaches {
+            let o = bus.send();
+            drop(o);
+            if k % (1 << 28) == 0 && (a.pending_frames(), b.pending_frames()) != (0, 4) {
+                return Err(format!("after {} attach/detach cycles pending_frames = ({}, {}), expected (0, 4)", k, a.pending_frames(), b.pending_frames()));
+            }
+        }
+        // one more output that stays, attached at the front
+        let mut c = bus.send();
+        if (a.pending_frames(), b.pending_frames(), c.pending_frames()) != (0, 4, 0) {
+            return Err(format!("after {} attach/detach cycles and one more attach pending_frames = ({}, {}, {}), expected (0, 4, 0)", attaches, a.pending_frames(), b.pending_frames(), c.pending_frames()));
+        }
+        for want in 1..5u64 {
+            let got = b.next();
+            if got != gen_frame(want) {
+                return Err(format!("the early lagging output returned {} as its frame {}, expected {}", got, want, gen_frame(want)));
+            }
+        }
+        let (x, y, z) = (a.next(), b.next(), c.next());
+        if x != gen_frame(5) || y != gen_frame(5) || z != gen_frame(5) || probe.pulls() != 6 {
+            return Err(format!("after catching up the three outputs returned {} / {} / {} for frame 5 (expected {}), source pulled {} times (expected 6)", x, y, z, gen_frame(5), probe.pulls()));
+        }
+        Ok(())
+    });
+    match r {
+        Ok(Ok(())) => rep.hit("bus_with_more_than_2_pow_32_attaches"),
+        Ok(Err(d)) => rep.violation("bus|many_attaches|early_output_disturbed", d, case),
+        Err(m) => rep.violation("bus|many_attaches|panic", m, case),
+    }
+    rep.eval(attaches);
+    rep.nontrivial_by_construction(1);
+}
+
 fn random_seq(rng: &mut Rng, len: usize, max_live: usize) -> Vec<Op> {
     let mut ops = Vec::with_capacity(len);
     let mut live: Vec<bool> = Vec::new();
@@ -403,7 +450,9 @@ fn main() {
     if let Some(cs) = &cli.case {
         let m = vmon::cli::parse_case(cs);
         let l: i64 = m["len"].parse().unwrap();
-        if m["ops"].starts_with("lockstep") {
+        if m["ops"].starts_with("attaches") {
+            many_attaches(&mut rep, m["ops"][9..].parse().unwrap());
+        } else if m["ops"].starts_with("lockstep") {
             lockstep_no_growth(&mut rep, 3, 64, 100_000);
             lockstep_no_growth(&mut rep, 2, 1, 100_000);
         } else {
@@ -446,6 +495,14 @@ fn main() {
     }
     rep.exhaustive(format!("every legal sequence of send / next(i) / drop(i) / drop-bus-handle operations of length {} over at most 3 outputs, and of length {}-2 over at most 4 outputs ({} maximal sequences), on an infinite source and on sources of length 0, 1, 2", depth, depth, n_seqs));
     // random long sequences
+    // 2^32 + 2^10 attaches on one bus: thorough tier, release-like stage only (minutes)
+    if cli.thorough() && cli.stage == "main" && usize::BITS >= 64 {
+        rep.oblige("bus_with_more_than_2_pow_32_attaches", 1);
+        many_attaches(&mut rep, (1u64 << 32) + (1 << 10));
+    } else {
+        // the same scenario at 2^20 attaches (what a narrower key would need is out of reach here)
+        many_attaches(&mut rep, 1 << 20);
+    }
     // deep backlogs (thousands of frames), see deep_seq
     rep.oblige("deep_backlog_histories", 1);
     let n_deep = cli.t(64u64, 6_000u64);
